@@ -111,6 +111,8 @@ type caseCtx struct {
 	dead  bool // deadlock or watchdog: process is wedged, abort the batch
 
 	stallRecovered int
+	onStall        func() // extra releases the stall handler performs (e.g. cancel every context)
+	stallStamp     int64  // logical time of the first stall handling, 0 = none
 }
 
 func newCase(rec *common.Recorder, idx uint64) *caseCtx {
@@ -299,7 +301,13 @@ func (cc *caseCtx) await(desc string, done func() bool) bool {
 		cc.dead = true
 		return false
 	}
+	if cc.stallStamp == 0 {
+		cc.stallStamp = cc.log.tick()
+	}
 	cc.openAll()
+	if cc.onStall != nil {
+		cc.onStall()
+	}
 	w.K = 5
 	w.Interval = 150 * time.Millisecond
 	rep, inc = w.WaitDone(done, 90*time.Second)
@@ -442,6 +450,17 @@ func (r *iret) Return(e error) {
 		close(r.done)
 	} else {
 		r.cc.violate(r.cc.prop()+"/returner-called-twice", "Returner.Return called more than once for one call", fmt.Sprintf("uid=%d", r.uid))
+	}
+}
+
+// release resets the result message (releasing the capabilities in it).
+func (r *iret) release() {
+	r.mu.Lock()
+	msg := r.res.Message()
+	r.res = capnp.Struct{}
+	r.mu.Unlock()
+	if msg != nil {
+		msg.Reset(nil)
 	}
 }
 
@@ -702,8 +721,15 @@ func yieldHook(site int) {
 	}
 }
 
+// policySalt varies the yield policy between repetitions of one case
+// (single-case replays re-run the same scenario under many policies).
+var policySalt uint64
+
 // setPolicy installs the policy of one run.  seed 0 = no perturbation.
 func setPolicy(seed uint64, sites []int) {
+	if seed != 0 && policySalt != 0 {
+		seed = mix64(seed, policySalt, 0x51) | 1
+	}
 	p := &yieldPolicy{seed: seed}
 	if seed != 0 && len(sites) > 0 {
 		r := common.NewRNG(seed)
